@@ -31,10 +31,17 @@ sys.path.insert(0, HERE)
 import registry  # noqa: E402
 
 NCPU = os.cpu_count() or 4
+# scratch trees (sensitivity runs with VERIF_REPO=<worktree>) get their own build and bin directories
+# (their evidence and replay files go to work/ as well, never to the committed directories)
+SUFFIX = "" if os.path.realpath(REPO) == "/repo" else "-" + hashlib.sha1(os.path.realpath(REPO).encode()).hexdigest()[:8]
 
 
 def log(*a):
     print(*a, file=sys.stderr, flush=True)
+
+
+EVDIR = os.path.join(VERIF, "evidence") if not SUFFIX else os.path.join(WORK, "evidence" + SUFFIX)
+REPLAYDIR = os.path.join(VERIF, "replays") if not SUFFIX else os.path.join(WORK, "replays" + SUFFIX)
 
 
 # ----------------------------------------------------------------------------- toolchains
@@ -81,7 +88,7 @@ def goenv(gotoolchain):
 # ----------------------------------------------------------------------------- build
 
 def prepare_build_dir():
-    bdir = os.path.join(WORK, "build")
+    bdir = os.path.join(WORK, "build" + SUFFIX)
     os.makedirs(bdir, exist_ok=True)
     with open(os.path.join(REPO, "go.mod")) as f:
         mod = f.read()
@@ -116,7 +123,7 @@ def prepare_build_dir():
 
 def build_unit(u, modfile, ov):
     go, gtc = toolchain(u.get("toolchain", "go124"))
-    bindir = os.path.join(WORK, "bin")
+    bindir = os.path.join(WORK, "bin" + SUFFIX)
     os.makedirs(bindir, exist_ok=True)
     out = os.path.join(bindir, u["name"] + ".test")
     tags = "verif"
@@ -369,7 +376,7 @@ def main():
     rundir = os.path.join(WORK, "run", "%s-%s-%d" % (pid, tier, os.getpid()))
     shutil.rmtree(rundir, ignore_errors=True)
     os.makedirs(rundir)
-    os.makedirs(os.path.join(VERIF, "evidence"), exist_ok=True)
+    os.makedirs(EVDIR, exist_ok=True)
     known = [k for k in load_known() if k.get("property") == pid]
     open_keys = {k["key"]: k for k in known if k.get("status") == "open"}
 
@@ -436,7 +443,7 @@ def main():
 
     violations = []
     known_lines = []
-    os.makedirs(os.path.join(VERIF, "replays"), exist_ok=True)
+    os.makedirs(REPLAYDIR, exist_ok=True)
     umap = {u["name"]: u for u in units}
     for res in results:
         u = umap[res["unit"]]
@@ -471,7 +478,7 @@ def main():
                     known_lines.append("KNOWN-FINDING: property=%s %s" % (pid, k["what"]))
                     continue
             h = hashlib.sha1(json.dumps(doc.get("case", doc.get("output_tail", "")), sort_keys=True).encode()).hexdigest()[:10]
-            dest = os.path.join(VERIF, "replays", "%s-%s-%s.json" % (pid, re.sub(r"[^A-Za-z0-9_-]", "_", str(doc.get("facet"))), h))
+            dest = os.path.join(REPLAYDIR, "%s-%s-%s.json" % (pid, re.sub(r"[^A-Za-z0-9_-]", "_", str(doc.get("facet"))), h))
             if replay and os.path.abspath(dest) == replay:
                 pass
             else:
@@ -509,7 +516,7 @@ def main():
     }
     if not replay:
         ok = validate_evidence(ev)
-        evp = os.path.join(VERIF, "evidence", pid + ".json")
+        evp = os.path.join(EVDIR, pid + ".json")
         json.dump(ev, open(evp, "w"), indent=1, default=str)
         if ok is False:
             infra.append("evidence file does not validate")
